@@ -4,7 +4,7 @@ import ast
 
 from .src import AnalysisError, unparse
 from . import tna
-from .tna import TN, T, Interp, Malformed
+from .tna import TN, T, Interp, Malformed, Unknown
 
 HOP = "renormalizer/mps/hop_expr.py"
 GS = "renormalizer/mps/gs.py"
@@ -162,7 +162,7 @@ def ham_direct_cases(src):
         def build(tn, nsite=nsite, two=two):
             lr = 4 if two else 3
             ops = [tn.leaf(f"O{i}", 4) for i in range(nsite)]
-            return {ps[2]: tn.leaf("L", lr), ps[3]: tn.leaf("R", lr), ps[4]: OpList(tn, ops, two), ps[5]: (0.5 if two else None),
+            return {ps[1]: _Mask(), ps[2]: tn.leaf("L", lr), ps[3]: tn.leaf("R", lr), ps[4]: OpList(tn, ops, two), ps[5]: (0.5 if two else None),
                     f"{ps[0]}.optimize_config.method": "1site" if nsite == 1 else "2site", "OE_BACKEND": "numpy"}
         key = f"get_ham_direct[{nsite}site,omega={'set' if two else 'None'}]"
         tn = TN()
@@ -170,6 +170,7 @@ def ham_direct_cases(src):
         it = DirectInterp(tn, env)
         try:
             it.run(fi.node.body)
+            it.finish()
             ham = it.first_ham
             if not isinstance(ham, T):
                 raise AnalysisError(f"{fi.where}[{key}]: dense Hamiltonian contraction not found")
@@ -182,28 +183,119 @@ def ham_direct_cases(src):
     return out
 
 
+class _Mask:
+    """the sector mask of the local problem: a boolean array over the axes of one half (bra or ket) of the dense Hamiltonian"""
+    def __repr__(self):
+        return "qn_mask"
+
+
+class _Grp(tuple):
+    """axes flattened and restricted by the mask"""
+
+
+class _Masked:
+    """dense Hamiltonian some of whose axes have been flattened and restricted by the mask: items = legs (kept axes) and tuples of legs (masked groups), in axis order"""
+    def __init__(self, items):
+        self.items = list(items)
+
+    @property
+    def rank(self):
+        return len(self.items)
+
+
 class DirectInterp(HopInterp):
+    """the dense local Hamiltonian: the contraction is interpreted as a network; the restriction to the sector is evaluated as indexing (boolean-mask indexing consumes as
+    many axes as the mask has - half of the axes of the dense Hamiltonian - and puts one axis in their place), however the index tuples are spelled"""
     first_ham = None
     mask_ok = True
     mask_form = ""
     mask_line = None
+    final = None
+
+    def _pyvalue(self, e):
+        """index expressions: python tuples / slices / ints built from literals, local names and the mask"""
+        from .syminterp import SymInterp
+        names = {k: v for k, v in self.env.items() if isinstance(k, str) and k.isidentifier() and isinstance(v, (int, float, str, bool, tuple, list, slice, _Mask, type(None)))}
+        it = SymInterp(None, None, {"slice": slice, "Ellipsis": Ellipsis})
+        try:
+            return it.ev(e, dict(names))
+        except Exception as ex:
+            raise Unknown(f"{unparse(e)[:40]}: {ex}")
+
+    def ev(self, e):
+        if isinstance(e, ast.Subscript):
+            try:
+                base = self.ev(e.value)
+            except Unknown:
+                base = None
+            if isinstance(base, (T, _Masked)) and (isinstance(base, _Masked) or base is self.first_ham or base is self.env.get("ham")):
+                idx = self._pyvalue(e.slice)
+                return self._index(base, idx, e)
+        try:
+            return super().ev(e)
+        except Unknown:
+            if isinstance(e, (ast.Tuple, ast.BinOp, ast.IfExp, ast.Call, ast.Name, ast.Compare, ast.BoolOp)) and not (isinstance(e, ast.Call) and unparse(e.func).split(".")[-1] in self.CONTRACT):
+                return self._pyvalue(e)
+            raise
+
+    def _index(self, base, idx, e):
+        items = list(base.legs) if isinstance(base, T) else list(base.items)
+        idx = idx if isinstance(idx, tuple) else (idx,)
+        half = self.first_ham.rank // 2 if isinstance(self.first_ham, T) else 0
+        self.mask_form = unparse(e).replace(" ", "")
+        self.mask_line = getattr(e, "lineno", None)
+        if Ellipsis in idx:
+            k = idx.index(Ellipsis)
+            used = sum(half if isinstance(x, _Mask) else 1 for x in idx if x is not Ellipsis)
+            idx = idx[:k] + (slice(None),) * (len(items) - used) + idx[k + 1:]
+        out, pos = [], 0
+        for x in idx:
+            if isinstance(x, _Mask):
+                grp = items[pos:pos + half]
+                if len(grp) != half or any(isinstance(g, _Grp) for g in grp):
+                    raise Malformed(f"mask applied at axis {pos} of an array with {len(items)} axes (the mask has {half})")
+                out.append(_Grp(grp))
+                pos += half
+            elif isinstance(x, slice) and x == slice(None):
+                if pos >= len(items):
+                    raise Malformed(f"too many indices in {self.mask_form}")
+                out.append(items[pos])
+                pos += 1
+            else:
+                raise Unknown(f"index {x!r} of the dense Hamiltonian")
+        out.extend(items[pos:])
+        return _Masked(out)
 
     def stmt(self, s):
         if isinstance(s, ast.Assign) and isinstance(s.targets[0], ast.Name) and s.targets[0].id == "ham":
-            if isinstance(s.value, ast.Call):
+            if isinstance(s.value, ast.Call) and unparse(s.value.func).split(".")[-1] in self.CONTRACT:
                 v = self.ev(s.value)
                 self.env["ham"] = v
                 self.first_ham = v
                 return
-            # ham = ham[:, :, :, qn_mask][qn_mask, :]
-            t = unparse(s.value).replace(" ", "")
-            self.mask_form = t
-            self.mask_line = s.lineno
-            n = self.first_ham.rank // 2 if isinstance(self.first_ham, T) else 0
-            want = "ham[" + ":," * n + "qn_mask][qn_mask,:]"
-            self.mask_ok = t == want
+            v = self.ev(s.value)
+            self.env["ham"] = v
+            if isinstance(v, _Masked):
+                self.final = v
+            return
+        if isinstance(s, ast.Return) and s.value is not None:
+            v = self.ev(s.value)
+            if isinstance(v, _Masked):
+                self.final = v
+            self.result, self.done = v, True
             return
         return super().stmt(s)
+
+    def finish(self):
+        """rows = the first half of the axes (bra), columns = the second half (ket), each restricted by the mask exactly once"""
+        f, h = self.final, self.first_ham
+        if not isinstance(h, T):
+            self.mask_ok = False
+            return
+        n = h.rank // 2
+        self.mask_ok = isinstance(f, _Masked) and len(f.items) == 2 and isinstance(f.items[0], _Grp) and isinstance(f.items[1], _Grp) and tuple(f.items[0]) == tuple(h.legs[:n]) and tuple(f.items[1]) == tuple(h.legs[n:])
+        if not self.mask_form:
+            self.mask_form = "no restriction by qn_mask found"
 
 
 def hdiag_cases(src):
